@@ -36,7 +36,8 @@ Init == /\ l \in {i \in 1..Len(Trace) : ~IsConc(Trace[i])} \cup (IF FirstConc <=
         /\ verdict = Pending /\ pending = [g \in Gs |-> <<>>] /\ overlaps = 0
 
 Stateless == /\ verdict.class = "pending" /\ l <= Len(Trace) /\ ~IsConc(Trace[l])
-             /\ verdict' = (IF Trace[l].ev = "call" THEN JudgeCall(Trace[l]) ELSE V(TRUE, "aux", ""))
+             /\ verdict' = (IF Trace[l].ev = "call" THEN JudgeCall(Trace[l])
+                             ELSE IF Trace[l].ev = "crash" THEN CrashVerdict(Trace[l]) ELSE V(TRUE, "aux", ""))
              /\ UNCHANGED <<l, pending, overlaps>>
 \* ParserCalls!Begin / End on the logged event; a disabled action is a rejected trace
 StepConc ==
